@@ -6,6 +6,7 @@ mod sy;
 
 mod ast;
 mod c01;
+mod c02;
 mod c06;
 mod c07;
 mod c08_09_14;
@@ -29,7 +30,7 @@ mod visit;
 use fw::{Check, Tier};
 
 fn registry() -> Vec<&'static dyn Check> {
-    vec![&c01::C01, &c01::C10, &c11_12::C11, &c11_12::C12, &plant::C03, &plant::C04, &plant::C05, &c06::C06, &c07::C07, &c08_09_14::C08, &c08_09_14::C09, &c13::C13, &c08_09_14::C14, &c15::C15, &c16::C16, &c17::C17, &c18::C18, &c19::C19, &c20::C20]
+    vec![&c01::C01, &c02::C02, &c01::C10, &c11_12::C11, &c11_12::C12, &plant::C03, &plant::C04, &plant::C05, &c06::C06, &c07::C07, &c08_09_14::C08, &c08_09_14::C09, &c13::C13, &c08_09_14::C14, &c15::C15, &c16::C16, &c17::C17, &c18::C18, &c19::C19, &c20::C20]
 }
 
 fn find(id: &str) -> Option<&'static dyn Check> {
